@@ -48,4 +48,29 @@ def handleSig (req : Sexp) : Sexp :=
     | .error e => mkList "err" [.atom (perrName e)]
   | _, _ => mkList "err" [.atom "bad-request"]
 
+def consumerOf : String → Consumer
+  | "extend" => .extend | "mapfunc" => .mapFunc | "default" => .dflt | "structmethod" => .structMethod | _ => .converterMethod
+
+/-- `(consumer id (kind K) (cli P?) (conv P?) (meth P?) (update U) (localctx ..) (rx (m pat name bool) ..) (obj ..))`:
+the signature is parsed with the profile of the consumer and with the context pattern in effect at its level;
+`rx` holds the regexp oracle answers (pattern, parameter name) -/
+def handleConsumer (req : Sexp) : Sexp :=
+  let k := consumerOf (asString (match fieldArgs req "kind" with | [v] => v | _ => .atom ""))
+  let lvl (key : String) : Option Str.S := match fieldArgs req key with | [v] => some (sOf v) | _ => none
+  let rx := (fieldArgs req "rx").map (fun e => match args e with | [p, n, b] => (sOf p, sOf n, asBool b) | _ => ([], [], false))
+  let pat := effPattern k (lvl "cli") (lvl "conv") (lvl "meth")
+  let o := consumerOpts k (sOf (match fieldArgs req "update" with | [v] => v | _ => .atom "")) ((fieldArgs req "localctx").map sOf)
+  match field? req "obj" with
+  | some ob =>
+    let obj := objOf ob
+    let obj := { obj with params := obj.params.map (fun p =>
+      { p with isConverter := p.isConverter && k.seesConverter,
+               ctxMatch := match pat with
+                 | none => false
+                 | some pt => rx.any (fun (p', n', b) => p' == pt && n' == p.name && b) }) }
+    match parse o obj with
+    | .ok d => defOut d
+    | .error e => mkList "err" [.atom (perrName e)]
+  | none => mkList "err" [.atom "bad-request"]
+
 end Gv.Driver
